@@ -64,9 +64,14 @@ pub fn run(tier: &str, seed: u64, out: &str) {
         std::fs::write(&spec, serde_json::to_string(&c.doc).unwrap()).unwrap();
         let dest = root.join("out");
         // prior content of the output directory
-        let prior = match i % 6 { 0 | 1 | 2 => "empty", 3 => "previous generation", 4 => "unrelated files", _ => "damaged previous generation" };
+        let prior = match i % 7 { 0 | 1 | 2 => "empty", 3 => "previous generation", 4 => "unrelated files", 5 => "damaged previous generation", _ => "interrupted previous generation" };
         let mut junk: Vec<String> = vec![];
         if prior == "previous generation" { let _ = run_cli(&root, &spec.to_string_lossy(), &dest.to_string_lossy(), &c.cfg, 20); }
+        if prior == "interrupted previous generation" {
+            // a run that died while writing its k-th file (the crash hook of the instrumented build), then the run under test
+            let plan = format!("{}:{}", (i / 7) % 9, 10 + (i % 40));
+            let _ = run_cli_env(&root, &spec.to_string_lossy(), &dest.to_string_lossy(), &c.cfg, 20, &[("LIBNINJA_VERIF_CRASH", plan)]);
+        }
         if prior == "unrelated files" {
             let t: Tree = [("src/old_module.rs", "pub fn old() {}\n"), ("src/model/stale.rs", "pub struct Stale;\n"), ("examples/gone.rs", "fn main() {}\n"), ("README.md", "keep me\n"), ("src/keep.rs", "// libninja: static\npub fn mine() {}\n")]
                 .iter().map(|(k, v)| (k.to_string(), v.as_bytes().to_vec())).collect();
